@@ -37,11 +37,12 @@ type xaNode struct {
 }
 
 type xaGen struct {
-	rng    *rand.Rand
-	ctr    int
-	objs   []*xaObj
-	table  int
-	budget int
+	rng     *rand.Rand
+	ctr     int
+	objs    []*xaObj
+	table   int
+	budget  int
+	inScope bool // the level being written is the body of a Scope directive (its objects are appended to the target when it is merged)
 }
 
 func xaKey(p []string) string { return strings.Join(p, ".") }
@@ -136,7 +137,7 @@ func (g *xaGen) declForm(cur []string, inObj bool) (*xaForm, []string) {
 
 func (g *xaGen) add(kind string, path []string, argc int, nd *xaNode, f ...*xaForm) *xaObj {
 	o := &xaObj{path: path, kind: kind, argc: argc, table: g.table, node: nd}
-	if len(f) > 0 && (f[0].Abs || f[0].Carets > 0 || len(f[0].Segs) > 1) {
+	if g.inScope || (len(f) > 0 && (f[0].Abs || f[0].Carets > 0 || len(f[0].Segs) > 1)) {
 		o.reloc = true
 	}
 	g.objs = append(g.objs, o)
@@ -248,8 +249,21 @@ func (g *xaGen) level(cur []string, inObj bool, depth int, n int) []*xaNode {
 		case k < 10 && depth < 3: // Device
 			f, p := g.declForm(cur, inObj)
 			nd := &xaNode{tok: xaTok{K: "open", Kind: "Device", F: f, W: g.width()}, blk: true}
+			switch g.rng.Intn(8) {
+			case 0:
+				nd.tok.Kind = "ThermalZone"
+			case 1:
+				nd.tok.Kind = "Processor"
+				nd.tok.Args = []xaTerm{{T: "byte", N: []int{g.rng.Intn(256)}}, {T: "dword", N: []int{g.rng.Intn(65536), g.rng.Intn(65536)}}, {T: "byte", N: []int{g.rng.Intn(256)}}}
+			case 2:
+				nd.tok.Kind = "PowerRes"
+				nd.tok.Args = []xaTerm{{T: "byte", N: []int{g.rng.Intn(6)}}, {T: "word", N: []int{g.rng.Intn(65536)}}}
+			}
 			g.add("Device", p, 0, nd, f)
+			was := g.inScope
+			g.inScope = false
 			nd.kids = g.level(p, true, depth+1, 1+g.rng.Intn(6))
+			g.inScope = was
 			out = append(out, nd)
 		case k < 16 && depth < 3: // Scope directive to a predefined scope or a device, written so that it can be merged at once
 			var f *xaForm
@@ -263,7 +277,10 @@ func (g *xaGen) level(cur []string, inObj bool, depth int, n int) []*xaNode {
 				continue
 			}
 			nd := &xaNode{tok: xaTok{K: "scope", F: f, W: g.width()}, blk: true}
+			was := g.inScope
+			g.inScope = true
 			nd.kids = g.level(p, !xaPlain(p), depth+1, 1+g.rng.Intn(5))
+			g.inScope = was
 			out = append(out, nd)
 		case k < 28: // Method
 			f, p := g.declForm(cur, inObj)
@@ -298,9 +315,9 @@ func (g *xaGen) level(cur []string, inObj bool, depth int, n int) []*xaNode {
 				}
 			}
 		case k < 67: // IndexField: the index name is written so that the container lands beside the real index field
-			_, fi := g.pick(cur, "Unit", g.table, true)
+			oi, fi := g.pick(cur, "Unit", g.table, true)
 			_, fd := g.pick(cur, "Unit", g.table, false)
-			if fi != nil && fd != nil {
+			if fi != nil && fd != nil && !(oi.reloc && oi.table == g.table) {
 				els, names := g.els(g.rng.Intn(5))
 				out = append(out, &xaNode{tok: xaTok{K: "ifield", F: fi, G: fd, W: g.width(), Flags: flags(), Els: els}})
 				for _, nm := range names {
@@ -565,19 +582,35 @@ func (b *xaBodyGen) target() xaTerm {
 	return xaTerm{T: "local", N: []int{b.g.rng.Intn(8)}}
 }
 
+// a name for an operand that is kept as written (SuperName read by its declared type): any absolute path will do
+func (b *xaBodyGen) refTyped(kinds string) (xaTerm, bool) {
+	if b.g.rng.Intn(3) == 0 {
+		var cand []*xaObj
+		for _, o := range b.g.objs {
+			if strings.Contains(kinds, o.kind) && o.table <= b.m.table {
+				cand = append(cand, o)
+			}
+		}
+		if len(cand) > 0 {
+			return xaTerm{T: "ref", F: &xaForm{Abs: true, Segs: cand[b.g.rng.Intn(len(cand))].path}}, true
+		}
+	}
+	return b.ref(kinds)
+}
+
 func (b *xaBodyGen) syncStmt() (xaTerm, bool) {
 	switch b.g.rng.Intn(7) {
 	case 0:
-		if r, ok := b.ref("Device"); ok {
+		if r, ok := b.refTyped("Device"); ok {
 			return xaTerm{T: "op", S: "Notify", A: []xaTerm{r, b.simple()}}, true
 		}
 		return xaTerm{T: "op", S: "Notify", A: []xaTerm{{T: "arg", N: []int{0}}, b.simple()}}, true
 	case 1:
-		if r, ok := b.ref("Mutex"); ok {
+		if r, ok := b.refTyped("Mutex"); ok {
 			return xaTerm{T: "op", S: "Acquire", A: []xaTerm{r, {T: "word", N: []int{b.g.rng.Intn(65536)}}}}, true
 		}
 	case 2:
-		if r, ok := b.ref("Mutex"); ok {
+		if r, ok := b.refTyped("Mutex"); ok {
 			return xaTerm{T: "op", S: "Release", A: []xaTerm{r}}, true
 		}
 	case 3:
@@ -585,11 +618,11 @@ func (b *xaBodyGen) syncStmt() (xaTerm, bool) {
 			return xaTerm{T: "op", S: "Signal", A: []xaTerm{r}}, true
 		}
 	case 4:
-		if r, ok := b.ref("Event"); ok {
+		if r, ok := b.refTyped("Event"); ok {
 			return xaTerm{T: "op", S: "Wait", A: []xaTerm{r, b.simple()}}, true
 		}
 	case 5:
-		if r, ok := b.ref("Event"); ok {
+		if r, ok := b.refTyped("Event"); ok {
 			return xaTerm{T: "op", S: "Reset", A: []xaTerm{r}}, true
 		}
 	default:
